@@ -86,6 +86,29 @@ pub fn process_pair(cfg: &RunCfg, item: &Item, rep: &mut PatReport) {
         }
     };
     let casei_a = cfg.prop == "C14";
+    if let Some(e) = &item.expected {
+        // both spellings were printed from a generated tree: the parser must rebuild it
+        for p in [&item.pattern, &variant] {
+            if let Ok(t) = parse_raw(p) {
+                if t.expr != **e {
+                    rep.candidates.push(crate::props::Cand {
+                        prop: cfg.prop.clone(),
+                        what: "the parser builds a different expression tree than the one the pattern was printed from".to_string(),
+                        op: "parse_debug".to_string(),
+                        pattern: p.clone(),
+                        casei: false,
+                        limit: None,
+                        text: Vec::new(),
+                        pos: 0,
+                        arg: 0,
+                        observed: std::format!("{:?}", t.expr),
+                        expected: std::format!("{:?}", e),
+                    });
+                    return;
+                }
+            }
+        }
+    }
     if item.note.starts_with("tree-differs") {
         // C19: the two spellings must parse to the same tree -- decided concretely
         rep.candidates.push(crate::props::Cand {
@@ -1145,6 +1168,9 @@ pub fn work_list(cfg: &RunCfg) -> Option<WorkList> {
             for w in corpus::WITNESSES.iter() {
                 respell_items(w, "witness", None, &mut fixed);
             }
+            for w in ["(a)((b)\\3)", "((a)\\2)", "(a)(b\\1)", "(a)(b)((c)\\2\\4)", "(?:(a)(b\\1))+"].iter() {
+                respell_items(w, "witness", None, &mut fixed);
+            }
             for w in ["(?i:é)b", "(?i)éa", "(?i:aé)", "(?i:\\x{212a})a", "(?i:(é)\\1)", "(?i:[é]b)", "é(?i:É)"].iter() {
                 respell_items(w, "witness", None, &mut fixed);
             }
@@ -1207,6 +1233,9 @@ pub fn work_list(cfg: &RunCfg) -> Option<WorkList> {
             for w in corpus::WITNESSES.iter() {
                 fixed.push(Item::new(w, "witness"));
             }
+            for w in ["(?<=(?(a)a|bbb))b", "(?<=(?(a)a|bb))c", "(a)?.(?<=(?(1)b|cc))d", "(?<=(?(a)ab|b))c", "(?<!(?(a)a|bb))c"].iter() {
+                fixed.push(Item::new(w, "witness"));
+            }
             for w in ["(?(a)b)", "(?(a)b|c)", "(?(a)bc|d)", "(?<=(?(a)b|c))d", "(?<=a?)b", "(?<=a|bc)d", "(?<=(?:a|bc))d", "(?<=a{2})b", "(?<=a{1,2})b", "(?<=\\bé)a", "(?<=€|ab)c",
                       "(?<!é|aa)b", "(?<=(a))\\1", "(?<=a(?=b))b", "(?<=.)\\b", "(?<=(?i:k))a", "(?<=[é€])a", "(?<=a\\K)b", "(?<=(?>a|bb))c", "(?<=(?:a|b)c)d", "(a)(?<=\\1)", "(?<=a*)b", "(?<=(a|bc))d"].iter() {
                 fixed.push(Item::new(w, "witness"));
@@ -1220,7 +1249,7 @@ pub fn work_list(cfg: &RunCfg) -> Option<WorkList> {
                 fixed.push(Item::new(&p, "exhaustive"));
             }
             let fillers = corpus::exhaustive(&["a", "bc", ".", "é", "[ab]"], &["cap", "?", "{2}", "{1,2}", "atomic", "(?="], 2);
-            for ctx in ["(?<=H)b", "(?<!H).", "(?<=aH)b", "(?<=H|c)b", "(?(H)a|bc)", "(?:H){2}", "(?>H)a"].iter() {
+            for ctx in ["(?<=H)b", "(?<!H).", "(?<=aH)b", "(?<=H|c)b", "(?(H)a|bc)", "(?:H){2}", "(?>H)a", "(?<=(?(a)H|bb))c", "(?<=(?(a)a|H))c"].iter() {
                 for f in &fillers {
                     let is_alt = f.contains('|') && !f.starts_with('(');
                     let s = if is_alt { ctx.replace("H", &std::format!("(?:{})", f)) } else { ctx.replace("H", f) };
@@ -1234,9 +1263,7 @@ pub fn work_list(cfg: &RunCfg) -> Option<WorkList> {
             for s in strs {
                 let esc = crate::escape(&s).to_string();
                 for (host, times) in ESCAPE_HOSTS.iter() {
-                    if !thorough && s.chars().count() == 2 && *host != "H" && *host != "(H)\\1" {
-                        continue;
-                    }
+
                     let mut it = Item::new(&host.replace("H", &esc), "escape-host");
                     it.note = s.clone();
                     it.variant = Some(s.repeat(*times));
@@ -1285,6 +1312,22 @@ pub fn random_item(cfg: &RunCfg, w: &WorkList, rng: &mut Rng, _k: usize) -> Opti
             Some(Item::new("a", "random-fallback"))
         }
         "C19" => {
+            if _k % 5 < 2 {
+                // generated tree: both spellings must parse back to exactly this tree
+                for _ in 0..10 {
+                    if let Some((e, base)) = crate::exprgen::random(rng, w.feats, w.max_depth) {
+                        let name = *rng.pick(&STYLES);
+                        if let Some(v) = unparse::unparse(&e, &style_named(name)) {
+                            if v != base {
+                                let mut it = Item::from_tree(e, &base, "random-tree");
+                                it.variant = Some(v);
+                                it.note = name.to_string();
+                                return Some(it);
+                            }
+                        }
+                    }
+                }
+            }
             for _ in 0..20 {
                 let p = corpus::random_pattern(rng, w.feats, w.max_depth);
                 let name = *rng.pick(&STYLES);
